@@ -36,6 +36,9 @@ func runC02(c *core.Ctx) {
 		if !c.Mine(idx) {
 			continue
 		}
+		if c.Enough() {
+			break
+		}
 		id := fmt.Sprintf("t%d", idx)
 		if !c.CaseQuiet(id) {
 			continue
@@ -73,6 +76,15 @@ func runC02(c *core.Ctx) {
 
 func judgeC02(c *core.Ctx, id string, h *wl.History) {
 	if !h.Quiesced {
+		if h.SenderSpins && h.WritersDone {
+			recs, _ := wl.Resolve(h)
+			_, accepted, onWire := wl.CheckC02(h, recs)
+			if accepted > onWire {
+				c.Violation("C02:sender-spins-without-draining", id, fmt.Sprintf("all write calls returned, %d of %d accepted payloads were never handed to the transport, and the sender action keeps cycling (%d loop iterations, %d transport writes) without draining the queue [%s]",
+					accepted-onWire, accepted, h.SpinLoops, h.Rig.S.Count("tV0"), h.Cfg), wl.Summary(h, 100))
+				return
+			}
+		}
 		c.Inconclusive(id, "watchdog: trial did not reach quiescence: "+h.Cfg.String())
 		return
 	}
